@@ -13,7 +13,6 @@ import (
 )
 
 type (
-	Pool   = sync.Pool
 	Map    = sync.Map
 	Locker = sync.Locker
 	Cond   = sync.Cond
